@@ -99,7 +99,8 @@ CLAIMS = {
          "for every other atom the one bond moved to the front leads to an atom visited earlier; at every root event every lower-numbered atom has been visited and everything visited later has a higher number. "
          "THE VISIT ORDER IS THE TEXTBOOK DEPTH-FIRST PREORDER (visit_order_is_depth_first; Spec/Dfs.lean, Lemmas/DfsL.lean): the order under which all these theorems renumber the atoms equals Spec.dfsOrder — defined from the adjacency list and the atoms seen so far only "
          "(start atoms tried as 0, 1, ...; a bond list gone through in list order; a bond to a new atom visits it and everything under it before the next bond is looked at), i.e. 'components start at the lowest-numbered unvisited atom and children are visited in list order' said outright — "
-         "and it is the order in which the atom events reach the follower.",
+         "and it is the order in which the atom events reach the follower. "
+         "THE FIRST SENTENCE ABOUT THE TEXT ITSELF (written_order): what the written text denotes (Spec.denote of C02: bond lists read off the text in written order) is at every atom the original list with only the arrival bond moved to the front — no builder in the statement.",
          "Lean 4 proof of the scheduling-order lemmas of traversal and builder + exact bond-list order oracle on the real round trip", "4.12"),
  'C13': ("Theorems in Purr/Props/C13.lean about the ring-number pool, for every sequence of hits (every reachable interleaving of openings and closings): the pool invariant "
          "(open and returned numbers partition 1..counter-1, no duplicates, one entry per unordered pair) holds in every reachable state; an opening hit returns the least number >= 1 not currently open; "
@@ -129,6 +130,8 @@ CLAIMS = {
          "OWN END (bond_cursor_is_own_end, Lemmas/TraceEndsL.lean): the entry (x,y) -> c points at a bond token of kind b that is followed either by the trace's own range of the later of the atoms x, y, which the reader attached with exactly kind b (chain / branch bond, both directions), "
          "or by the trace's own range of the k-th ring-closure token, which was written while x was the head atom and whose join carried exactly kind b (ring closure: each direction its own digit). "
          "trace_matches_built_graph: for every accepted string that builds, the trace has as many atoms as the built graph and an entry for (x,y) iff atom x has a bond to atom y (builder/trace lock-step over the same events, Lemmas/TraceBondL.lean). "
+         "THE LAST CLAUSE (build errors can be shown at the right place): rnum_error_points_at_its_token — if building what was read fails with Rnum(i), entry i of the ring table exists, is a non-empty range inside the string and its token reads as a ring number the string carries an odd number of times; "
+         "join_error_points_at_its_atoms — if it fails with Join(a, c), both atoms have an entry in the atom table, each the exact range of an atom token. "
          "Additionally the complete trace dump of the real Trace (all atom ranges, every bond key in both directions, ring digits) is compared with the model on every string, and an oracle recomputes spans and bond cursors from an independent tokeniser.",
          "Lean 4 proof that recorded ranges and bond cursors are exactly token positions (located-event invariant over the reader) and that the trace's keys are the built graph's bonds (lock-step invariant) + full trace-dump correspondence", "4.15"),
  'C16': ("Theorem debracket_sound (Purr/Props/C16.lean): for every atom kind and every bond-order sum (an unbounded Nat), whenever debracket returns, the result has the same "
